@@ -423,14 +423,20 @@ Fixpoint cmp_chain (c : cmp) (a : val) (rest : list val) : res :=
                   | None => RVal VInexact
                   end
   end.
-(* = : from the last operand backwards; the target becomes the NORMALISED later operand, so after a
-   pair that went through floats the model declines to predict the rest of the chain *)
+(* = : from the last operand backwards.  same (pkg/cl/same.go) compares a bignum and a ratio (any two operands
+   that are a *Bignum or a *Ratio) by their exact big.Rat values (asRat, slip repair C16-11; before it a bignum
+   beyond int64 and a ratio went through long-floats) and keeps the target; for the other pairs the target becomes
+   the NORMALISED later operand, and a pair that goes through floats is not predicted *)
+Definition rat_like (v : val) : bool := match v with VBig _ | VRat _ _ => true | _ => false end.
+Definition eq_pair (target x : val) : option bool :=
+  if rat_like target && rat_like x
+  then Some (cmp_z CEq (as_num target * as_den x) (as_num x * as_den target))
+  else cmp_pair CEq target x.
 Fixpoint eq_chain (target : val) (rev_rest : list val) : res :=
   match rev_rest with
   | [] => RBool true
-  | x :: more => match cmp_pair CEq target x with
-                 | Some true => if inexact_pair target x then (match more with [] => RBool true | _ => RVal VInexact end)
-                                else eq_chain target more
+  | x :: more => match eq_pair target x with
+                 | Some true => eq_chain target more
                  | Some false => RBool false
                  | None => RVal VInexact
                  end
